@@ -16,6 +16,7 @@ import RavenModel.Model.SearchImpl
 import RavenModel.Model.Slices
 import RavenModel.Model.Lifetime
 import RavenModel.Model.Deliver
+import RavenModel.Model.Mime
 /-! Line protocol: one op per line (`op arg …`, byte-string args hex encoded, `-` = empty, `.` = empty list),
 one canonical line out. Stateful ops (`m.*`) act on the driver's mailbox-machine state. -/
 open Raven
@@ -186,6 +187,7 @@ def opsMime : List String → Option String
       | some j, some (.multi a _) => s!"row {j} spec M {hexOut a}"
       | none, none => "none"
       | _, _ => "MISMATCH")
+  | ["mm.observe", m] => some (Mime.observe (unhex m))
   | ["s.split", m] => some (hexOut (Split.header (unhex m)) ++ " " ++ hexOut (Split.text (unhex m)))
   | ["s.cut", m, o, n] => some (match Split.cut (unhex m) o.toInt! n.toNat! with | some r => hexOut r | none => "refuse")
   | "h.extract" :: lines =>
